@@ -10,10 +10,10 @@ import (
 type outcome int
 
 const (
-	oOK        outcome = iota // must succeed; params are what the host must receive
-	oErr                      // must fail with an error, host not invoked
-	oWeak                     // statement silent on this shape: error (host not invoked) or success with params (prefix law)
-	oNoCrash                  // nothing asserted beyond "no host panic"
+	oOK      outcome = iota // must succeed; params are what the host must receive
+	oErr                    // must fail with an error, host not invoked
+	oWeak                   // statement silent on this shape: error (host not invoked) or success with params (prefix law)
+	oNoCrash                // nothing asserted beyond "no host panic"
 )
 
 // plan is what the reference says about calling a Go function of type ft with the
